@@ -45,6 +45,13 @@ def c03(report, rng, tier, findings):
                                ('or', ('and', first, a2), a1)])
             base['sel'] = [('var', v) for v in ids_]
             report.count('template_negated_conjunction_under_outer_bindings')
+        if i % 5 == 4:
+            # a leaf in condition position whose VALUE is truthy / falsy without being a bool: a number (0, 2, 3), a list
+            # (empty or not), a tuple, a string - its negation is the negation of its truth
+            v_ = rng.choice([w[0] for w in base['vars']])
+            leaf = ('truth', ('attr', rng.choice(('a', 'a', 'items', 'items', 's', 't')), ('var', v_)))     # (not an object: sized classes)
+            conj = rng.choice([leaf, ('and', conj, leaf), ('or', leaf, conj), ('and', leaf, conj), ('or', conj, ('not', leaf))])
+            report.count('non_boolean_value_in_condition_position')
         for tag, c in (('p', conj), ('n', ('not', conj)), ('nn', ('not', ('not', conj)))):
             v = dict(base)
             v['id'] = f'c{i}{tag}'
@@ -510,6 +517,18 @@ def c15(report, rng, tier, findings):
             sqc = ('subq', 'the', z, link)
             atom_i = ('cmp', op, ('attr', f, ('var', x)), ('attr', g_, sqc))
             atom_e = ('cmp', op, ('attr', f, ('var', x)), ('attr', g_, ('var', z)))
+            if tries % 3 == 0:
+                # the the(...) ITSELF is the right operand (objects are compared), and the comparison is the FIRST condition:
+                # the outer variable is bound by the comparison's own left operand, not by an earlier conjunct
+                op = rng.choice(('eq', 'ne'))
+                atom_i = ('cmp', op, ('attr', 'ref', ('var', x)), sqc)
+                atom_e = ('cmp', op, ('attr', 'ref', ('var', x)), ('var', z))
+                case = dict(base)
+                case.update({'sel': [('var', x)], 'entity': True, 'cond': [atom_i, first],
+                             'explicit': {**base, 'sel': [('var', x)], 'entity': True, 'cond': [link, atom_e, first]},
+                             'operand_quant': 'the_correlated_first_condition'})
+                ocases.append(case)
+                continue
             case = dict(base)
             case.update({'sel': [('var', x)], 'entity': True, 'cond': [first, atom_i],
                          'explicit': {**base, 'sel': [('var', x)], 'entity': True, 'cond': [first, link, atom_e]},
@@ -1191,7 +1210,22 @@ def c10(report, rng, tier, findings):
         if forced:
             shape = 'single' if i % 12 == 5 else 'fa_first'
         case['fa_shape'] = shape
-        if forced or (nfree == 2 and mode == 'both' and shape in ('single', 'fa_first') and i % 2 == 0):
+        if forced and i % 12 == 11:
+            # template: the for_all is the first / only condition, BOTH free variables are still unbound, and a disjunction
+            # chosen by the universal value binds them in opposite orders:
+            # for_all(u, or_(and_(u.a == k, x.a < y.a), and_(u.a != k, y.b < x.a)))
+            x_, y_ = free_ids
+            U_ = ('var', u)
+            k_ = ('lit', ('i', rng.randint(0, 3)))
+            body = ('or', ('and', ('cmp', 'eq', ('attr', 'a', U_), k_),
+                           ('cmp', rng.choice(('lt', 'le', 'ne')), ('attr', 'a', ('var', x_)), ('attr', 'a', ('var', y_)))),
+                    ('and', ('cmp', 'ne', ('attr', 'a', U_), k_),
+                     ('cmp', rng.choice(('lt', 'le', 'ne')), ('attr', 'a', ('var', y_)), ('attr', 'a', ('var', x_)))))
+            case['forall'] = (u, [body])
+            case['cond'] = None
+            outer = []
+            report.count('template_disjunction_binds_the_free_variables_in_opposite_orders')
+        elif forced or (nfree == 2 and mode == 'both' and shape in ('single', 'fa_first') and i % 2 == 0):
             # one of the free variables of the for_all's condition is NOT selected (and no other conjunct mentions it unless
             # the outer condition happens to): f is kept iff SOME g makes the condition true for EVERY universal value
             case['sel'] = sel[:1]
